@@ -73,6 +73,12 @@ func (c *PushedAuthorizeHandler) HandlePushedAuthorizeEndpointRequest(ctx contex
 
 	requestURI := fmt.Sprintf("%s%s", configProvider.GetPushedAuthorizeRequestURIPrefix(ctx), b64.EncodeToString(stateKey))
 
+	// The client has been authenticated already. Its credentials are not part of the authorization
+	// request and must not be handed to the storage layer in cleartext.
+	for _, key := range []string{"client_secret", "client_assertion", "client_assertion_type"} {
+		ar.GetRequestForm().Del(key)
+	}
+
 	// store
 	if err = storage.CreatePARSession(ctx, requestURI, ar); err != nil {
 		return errorsx.WithStack(fosite.ErrServerError.WithHint("Unable to store the PAR session").WithWrap(err).WithDebug(err.Error()))
